@@ -238,6 +238,11 @@ class FormatterConfig:
         return None
 
 
+def can_be_plain_string(node: mparser.StringNode) -> bool:
+    '''Whether a triple-quoted string denotes the same string between single quotes'''
+    return node.is_multiline and not any(x in node.value for x in ['\n', "'", '\\'])
+
+
 class MultilineArgumentDetector(FullAstVisitor):
 
     def __init__(self, config: FormatterConfig, function_arguments: T.Optional[mparser.ArgumentNode] = None):
@@ -250,7 +255,10 @@ class MultilineArgumentDetector(FullAstVisitor):
             self.is_multiline = True
 
         elif isinstance(node, mparser.StringNode) and node.is_multiline:
-            self.is_multiline = True
+            # A triple-quoted string that is going to be printed as a plain
+            # one does not ask for a multiline layout.
+            if not (self.config.simplify_string_literals and can_be_plain_string(node)):
+                self.is_multiline = True
 
     def visit_FunctionNode(self, node: mparser.FunctionNode) -> None:
         self.function_arguments.add(id(node.args))
@@ -413,7 +421,7 @@ class TrimWhitespaces(FullAstVisitor):
         self.enter_node(node)
 
         if self.config.simplify_string_literals:
-            if node.is_multiline and not any(x in node.value for x in ['\n', "'", '\\']):
+            if can_be_plain_string(node):
                 node.is_multiline = False
                 node.value = node.escape()
 
